@@ -786,10 +786,10 @@ const PASSES: &[Pass] = &[
     Pass {
         name: "full-droplate",
         ops: &ALL_OPS,
-        depth: [(3, 4), (2, 3), (SKIP, SKIP)],
+        depth: [(SKIP, 4), (SKIP, 3), (SKIP, SKIP)],
         skip_probes: &["eq-and-gt-same-col"],
         skip_variants: &["pk", "uniq", "sec", "sec_nopk", "comp", "partial", "text", "late"],
-        why: "full alphabet one level deeper on the variant whose index is dropped before probing (no index defect can prune it)",
+        why: "full alphabet one level deeper (thorough tier only) on the variant whose index is dropped before probing (no index defect can prune it)",
     },
     Pass {
         name: "ins-tx",
